@@ -142,7 +142,7 @@ m('c12-sha1', 'C12', 'chain.py', "        return sha256(f'{parameter_repr}$$${in
 m('c12-unsorted-params', 'C12', 'parameter.py', "        for name, parameter in sorted(self._parameters.items()):", "        for name, parameter in self._parameters.items():")
 m('c12-str-repr', 'C12', 'utils/clazz.py', "        return f\"'{obj}'\"", "        return repr(obj)")
 m('c12-group-underscore', 'C12', 'task.py', "        path = self._config.base_dir / self.slugname.replace(':', '/')", "        path = self._config.base_dir / self.slugname.replace(':', '_')")
-m('c12-log-name', 'C12', 'data.py', "        return path.parent / f'{path.stem}.log'", "        return path.parent / f'{path.name}.log'")
+m('c12-log-name', 'C12', 'data.py', "        return self._path.parent / f'{self._name}.log'", "        return self._path.parent / f'{self._name}.txt'")
 m('c12-unsorted-inputs', 'C12', 'chain.py', "for n, it in sorted(self.input_tasks.items()))", "for n, it in self.input_tasks.items())")
 m('c12-ns-kept-in-input-names', 'C12', 'chain.py', "                _name = _name[len(outer_namespace) + 2 :]", "                pass")
 m('c12-dict-unsorted', 'C12', 'utils/clazz.py', "for key, val in sorted(obj.items())", "for key, val in obj.items()")
@@ -159,8 +159,8 @@ m('c01-load-any-key', 'C01', 'data.py', "    def exists(self) -> bool:\n        
   "    def exists(self) -> bool:\n        return self.path.exists() or any(self._base_dir.glob(f'*.{self.extension}'))\n\n    def delete(self):\n        self.path.unlink()")
 # ---- C04 -----------------------------------------------------------------------------------------------
 m('c04-has-data-via-data', 'C04', 'task.py', "        return self._data_without_value.exists()", "        return self.data.exists()")
-m('c04-eager-inputs', 'C04', 'task.py', "        if self._data and self._data.is_persisting and self._data.exists() and not self._forced:\n            self._data.load(self.data_type)",
-  "        _ = [t.value for t in self.input_tasks.values() if isinstance(t, Task)]\n        if self._data and self._data.is_persisting and self._data.exists() and not self._forced:\n            self._data.load(self.data_type)")
+m('c04-eager-inputs', 'C04', 'task.py', "        if self._data is not None and self._data.is_persisting and self._data.exists() and not self._forced:\n            self._data.load(self.data_type)",
+  "        _ = [t.value for t in self.input_tasks.values() if isinstance(t, Task)]\n        if self._data is not None and self._data.is_persisting and self._data.exists() and not self._forced:\n            self._data.load(self.data_type)")
 # (re-loading instead of keeping the loaded value in memory runs nothing: not a C04 violation; C13 observes re-reads)
 m('c04-tasks-df-computes', 'C04', 'chain.py', "                'computed': task.has_data if task.data_path else None,", "                'computed': (task.value is not None) if task.data_path else None,")
 m('c04-run-info-computes', 'C04', 'task.py', "        data = self._data_without_value\n        return data.load_run_info()", "        data = self.data\n        return data.load_run_info()")
@@ -185,7 +185,7 @@ m('c18-handler-leak-on-failure', 'C18', 'task.py', "                try:\n      
   "                run_result = self.run(*self._get_run_arguments())\n                self.logger.info(f'{self} - run ended')\n                self.logger.removeHandler(data_log_handler)")
 m('c18-input-keys-missing', 'C18', 'task.py', "                self._run_info['input_tasks'] = self._config.input_tasks", "                self._run_info['input_tasks'] = {k: v[:8] for k, v in self._config.input_tasks.items()}")
 m('c18-params-from-default', 'C18', 'task.py', "            'parameters': {p.name: p.value_repr() for p in self.parameters.values()},", "            'parameters': {p.name: repr(p.default) for p in self.parameters.values()},")
-m('c18-run-info-skipped-on-rerun', 'C18', 'task.py', "        if self._data and self._data.is_logging:\n            self._data.save_run_info(self._run_info)", "        if self._data and self._data.is_logging and not self._data.run_info_path.exists():\n            self._data.save_run_info(self._run_info)")
+m('c18-run-info-skipped-on-rerun', 'C18', 'task.py', "        if self._data is not None and self._data.is_logging:\n            self._data.save_run_info(self._run_info)", "        if self._data is not None and self._data.is_logging and not self._data.run_info_path.exists():\n            self._data.save_run_info(self._run_info)")
 
 # ---- C13 -----------------------------------------------------------------------------------------------
 m('c13-registry-by-name', 'C13', 'chain.py', "            key = task.slugname, task.name_for_persistence\n", "            key = task.slugname, ''\n")
@@ -246,9 +246,9 @@ m('c20-suffix-from-old', 'C20', 'utils/migration.py', "                copytree(
 m('c05-json-in-place', 'C05', 'data.py', "        with self._publishing() as path, path.open('w') as f:\n            json.dump(self.value, f, indent=2, sort_keys=True)", "        json.dump(self.value, self.path.open('w'), indent=2, sort_keys=True)")
 m('c05-numpy-in-place', 'C05', 'data.py', "        with self._publishing() as path:\n            np.save(str(path), self.value)", "        np.save(str(self.path), self.value)")
 m('c05-dir-copy-publish', 'C05', 'data.py', "    def save(self):\n        _replace_dir(self.tmp_path, self.path)\n        self._value = self._dir = self.path", "    def save(self):\n        if self.path.exists():\n            shutil.rmtree(self.path)\n        shutil.copytree(str(self.tmp_path), str(self.path))\n        shutil.rmtree(self.tmp_path)\n        self._value = self._dir = self.path")
-m('c05-skip-on-run-error', 'C05', 'task.py', "                if self._data:\n                    self._data.on_run_error()\n                    self._data = None", "                if self._data:\n                    self._data = None")
+m('c05-skip-on-run-error', 'C05', 'task.py', "                if self._data is not None:\n                    self._data.on_run_error()\n                    self._data = None", "                if self._data is not None:\n                    self._data = None")
 m('c05-save-before-type-check', 'C05', 'task.py', "        if isclass(self.data_type) and issubclass(self.data_type, Data) and isinstance(run_result, self.data_type):", "        if self._data is not None and self._data.is_persisting and not isinstance(self._data, DirData) and not (isclass(self.data_type) and issubclass(self.data_type, Data)):\n            self._data.set_value(run_result)\n            self._data.save()\n        if isclass(self.data_type) and issubclass(self.data_type, Data) and isinstance(run_result, self.data_type):")
-m('c05-process-result-outside-try', 'C05', 'task.py', "                        data_log_handler.close()\n                self._process_run_result(run_result)\n            except Exception as error:\n                if self._data:\n                    self._data.on_run_error()\n                    self._data = None\n                raise error\n", "                        data_log_handler.close()\n            except Exception as error:\n                if self._data:\n                    self._data.on_run_error()\n                    self._data = None\n                raise error\n            self._process_run_result(run_result)\n")
+m('c05-process-result-outside-try', 'C05', 'task.py', "                        data_log_handler.close()\n                self._process_run_result(run_result)\n            except Exception as error:\n                if self._data is not None:\n                    self._data.on_run_error()\n                    self._data = None\n                raise error\n", "                        data_log_handler.close()\n            except Exception as error:\n                if self._data is not None:\n                    self._data.on_run_error()\n                    self._data = None\n                raise error\n            self._process_run_result(run_result)\n")
 m('c05-data-kept-after-error', 'C05', 'task.py', "                    self._data.on_run_error()\n                    self._data = None", "                    self._data.on_run_error()")
 m('c05-publish-before-write', 'C05', 'data.py', "        try:\n            yield tmp_path\n            os.replace(tmp_path, self.path)", "        try:\n            tmp_path.touch()\n            os.replace(tmp_path, self.path)\n            yield self.path")
 m('c05-replace-dir-rmtree-first', 'C05', 'data.py', "    if path.exists():\n        os.rename(path, old_dir)\n    os.rename(new_dir, path)", "    if path.exists():\n        shutil.rmtree(path)\n    os.rename(new_dir, path)")
